@@ -254,7 +254,10 @@ func UNFOLD_Mismatch(h *rt.H) {
 	v := gen.Value(h, cfg)
 	t := h.Choose("target", 0, numTargets-1)
 	l := int(h.U64("announced"))
-	h.Assume(l >= -1)
+	// -1 (unknown), small honest-looking lengths, or enormous ones; the range in
+	// between takes the same code path as the enormous ones (clamped pre-allocation)
+	// and would only multiply concrete slice lengths in the engine
+	h.Assume(l >= -1 && (l <= 3 || l >= 1<<20))
 	stopAfter := h.Choose("abandonAfter", -1, h.Param("ABANDON", 3))
 	to := newTarget(t)
 	u, err := gotype.NewUnfolder(to)
